@@ -194,6 +194,9 @@ func (e *Engine) branch(st *State, cond *Term) (t, f bool) {
 		return false, true
 	}
 	rt := e.feasible(st, cond)
+	if rt == Unsat {
+		return false, true // the path condition itself is feasible, so the other side must be
+	}
 	rf := e.feasible(st, Not(cond))
 	return rt != Unsat, rf != Unsat
 }
@@ -240,6 +243,8 @@ func (e *Engine) CallFn(st *State, fn *ssa.Function, args []Value, in ssa.Instru
 		}
 		e.FuncsSeen[fn.String()] = n
 	}
+	e.curFn = append(e.curFn, fn)
+	defer func() { e.curFn = e.curFn[:len(e.curFn)-1] }()
 	entryLen := len(st.pc)
 	fr := &Frame{fn: fn, locals: make(map[ssa.Value]Value, 32), block: fn.Blocks[0], loops: map[int]int{}}
 	for i, p := range fn.Params {
